@@ -9,7 +9,7 @@ SRC = ["harness/c14.c", "harness/cpp_session.cpp", "harness/sysrand.c", "ref/ref
 def run(ctx):
     t = 1 if ctx.thorough else 0
     jobs = []
-    for be in (["asm", "c32", "generic"] if ctx.thorough else ["asm"]):
+    for be in (["asm", "c64", "c32", "dxor", "generic"] if ctx.thorough else ["asm", "c32", "generic"]):
         lib = build.build_lib(be)
         ctx.configs.append(lib["desc"])
         exe = build.build_prog("c14", SRC, lib, opt="-O2")
